@@ -3,6 +3,6 @@
 set -e
 cd "$(dirname "$0")"
 export CARGO_NET_OFFLINE=true
-(cd lean && lake build Sml smlmodel $(ls Sml/Props/*.lean 2>/dev/null | sed 's#/#.#g; s#\.lean$##') )
+(cd lean && lake build Sml smlmodel $(find Sml -name '*.lean' | sed 's#/#.#g; s#\.lean$##') )
 (cd harness && cargo build --release --offline)
 echo "setup ok"
